@@ -215,4 +215,65 @@ theorem reads_change_no_tree (s : St) :
   · intro n i; simp only [step]; repeat' split
     all_goals exact ⟨rfl, rfl⟩
 
+/-! ### the CharacterData mutators on the tree
+    A CharacterData call that succeeds changes the data of the ONE node it was made on, to the string the DOM Level 1 function
+    computes from the old data (the string functions are the subject of C16); its identity, kind, place and everything else in
+    every tree stay. -/
+
+theorem withData_keepsId (d : Str) : KeepsId (Node.withData d) := fun n => by cases n; rfl
+
+/-- the five mutators `setData / appendData / insertData / deleteData / replaceData` go through one function: on success the
+    node found under `n` afterwards is the old node with the new data -/
+theorem dataOp_effect (s s' : St) (n : Nat) (f : Str → Option Str) (nn : Node) (hi : Inv s) (hf : s.find n = some nn)
+    (hk : isCharData nn.kind = true) (h : step.dataOp s n f = (s', .ok)) :
+    ∃ d', f nn.data = some d' ∧ validData nn.kind d' = true ∧ s'.find n = some (nn.withData d') := by
+  unfold step.dataOp at h
+  simp only [hf] at h
+  cases hd : f nn.data with
+  | none => cases hkk : nn.kind <;> simp_all [isCharData]
+  | some d' =>
+    by_cases hv : validData nn.kind d' = true
+    · refine ⟨d', rfl, hv, ?_⟩
+      have key := find_update s n (Node.withData d') (withData_keepsId d') nn hi.1 hf
+      cases hkk : nn.kind <;> simp_all [isCharData]
+      all_goals (rw [← h]; exact key)
+    · cases hkk : nn.kind <;> simp_all [isCharData]
+
+/-- `appendData`: the data afterwards is the old data followed by the argument -/
+theorem appendData_effect (s s' : St) (n : Nat) (d : Str) (nn : Node) (hi : Inv s) (hf : s.find n = some nn)
+    (hk : isCharData nn.kind = true) (h : step s (.appendData n d) = (s', .ok)) :
+    s'.find n = some (nn.withData (nn.data ++ d)) := by
+  obtain ⟨d', hd, _, hfind⟩ := dataOp_effect s s' n _ nn hi hf hk (by simpa only [step] using h)
+  simp only [Option.some.injEq] at hd
+  subst hd
+  exact hfind
+
+/-- `setData`: the data afterwards is the argument -/
+theorem setData_effect (s s' : St) (n : Nat) (d : Str) (nn : Node) (hi : Inv s) (hf : s.find n = some nn)
+    (hk : isCharData nn.kind = true) (h : step s (.setData n d) = (s', .ok)) :
+    s'.find n = some (nn.withData d) := by
+  obtain ⟨d', hd, _, hfind⟩ := dataOp_effect s s' n _ nn hi hf hk (by simpa only [step] using h)
+  simp only [Option.some.injEq] at hd
+  subst hd
+  exact hfind
+
+/-- `deleteData` / `insertData` / `replaceData`: the data afterwards is what the DOM Level 1 string function gives (C16) -/
+theorem deleteData_effect (s s' : St) (n off cnt : Nat) (nn : Node) (hi : Inv s) (hf : s.find n = some nn)
+    (hk : isCharData nn.kind = true) (h : step s (.deleteData n off cnt) = (s', .ok)) :
+    ∃ d', CharData.deleteData nn.data off cnt = some d' ∧ s'.find n = some (nn.withData d') := by
+  obtain ⟨d', hd, _, hfind⟩ := dataOp_effect s s' n _ nn hi hf hk (by simpa only [step] using h)
+  exact ⟨d', hd, hfind⟩
+
+theorem insertData_effect (s s' : St) (n off : Nat) (d : Str) (nn : Node) (hi : Inv s) (hf : s.find n = some nn)
+    (hk : isCharData nn.kind = true) (h : step s (.insertData n off d) = (s', .ok)) :
+    ∃ d', CharData.insertData nn.data off d = some d' ∧ s'.find n = some (nn.withData d') := by
+  obtain ⟨d', hd, _, hfind⟩ := dataOp_effect s s' n _ nn hi hf hk (by simpa only [step] using h)
+  exact ⟨d', hd, hfind⟩
+
+theorem replaceData_effect (s s' : St) (n off cnt : Nat) (d : Str) (nn : Node) (hi : Inv s) (hf : s.find n = some nn)
+    (hk : isCharData nn.kind = true) (h : step s (.replaceData n off cnt d) = (s', .ok)) :
+    ∃ d', CharData.replaceData nn.data off cnt d = some d' ∧ s'.find n = some (nn.withData d') := by
+  obtain ⟨d', hd, _, hfind⟩ := dataOp_effect s s' n _ nn hi hf hk (by simpa only [step] using h)
+  exact ⟨d', hd, hfind⟩
+
 end XmlRs.C13
